@@ -371,6 +371,9 @@ class NCCHReader(TypeReaderCryptoBase):
 
     def close(self):
         super().close()
+        for nested in (getattr(self, 'exefs', None), getattr(self, 'romfs', None)):
+            if nested is not None:
+                nested.close()
         try:
             self._exefs_fp.close()
         except AttributeError:
